@@ -35,7 +35,7 @@ def cfg(guarded=True, known=False):
             "SPECIFICATION Spec\nINVARIANT Accepted\nINVARIANT NonVacuous\nINVARIANT BalancedAssignmentsAccepted\n"
             "INVARIANT FrameZeroIsInitialState\nINVARIANT CellOutflowEqualsInjection\nINVARIANT TerminalInflowEqualsRequested\n"
             f"INVARIANT {'ExactlyStationaryModKnown' if known else 'ExactlyStationary'}\nINVARIANT StepGrowsToMax\n"
-            "INVARIANT StationaryToRounding\nCHECK_DEADLOCK FALSE\n")
+            "INVARIANT StationaryToRounding\nINVARIANT EditsReached\nCHECK_DEADLOCK FALSE\n")
 
 
 def diagnosis_cfg():
@@ -429,7 +429,10 @@ def conservation_run(tdgl, a, tmp):
     return conservation_trace(dev, a, ok, frames, err)
 
 
-def conservation_trace(dev, a, ok, frames, err):
+def conservation_trace(dev, a, ok, frames, err, polys=None, epoch=None):
+    """polys (optional): name -> vertex list of the terminal polygons IN FORCE at this solve, as the harness itself specified
+    them (then the terminal edges / sites come from terminal_geometry_raw, nothing is asked of the Device's terminals);
+    epoch (optional): number of terminal edits that preceded this solve, recorded on the frame events."""
     nums, den = nums_of(a)
     ev = [{"kind": "ctor", "nums": nums, "den": den, "accepted": bool(ok)}]
     tr = {"cfg": {"adaptive": bool(a.get("adaptive", False)), "window": int(a.get("window", 3)), "driven": bool(ok and any(nums)),
@@ -446,7 +449,11 @@ def conservation_trace(dev, a, ok, frames, err):
     # fine level: the device's own K0 and xi (documented properties), so that the last digits of mu0 / Phi0 do not matter
     I0 = float((dev.K0 * dev.coherence_length / 4).to(a.get("current_units", "uA")).magnitude)
     tr["I0_ratio"] = I0 / I0_doc
-    tinfo = terminal_geometry(dev, geo, a.get("scale", 1.0))
+    if polys is None:
+        tinfo = terminal_geometry(dev, geo, a.get("scale", 1.0))
+    else:
+        tinfo = terminal_geometry_raw(polys, geo, mesh.sites, a.get("scale", 1.0))
+    ep = {} if epoch is None else {"epoch": int(epoch)}
     f_cur = currents_func(a)
     term_cell = np.zeros(len(mesh.sites), dtype=bool)
     share = {}          # terminal -> per-site share of the terminal's length (half of each boundary edge at the site)
@@ -466,7 +473,7 @@ def conservation_trace(dev, a, ok, frames, err):
                     psi0[t["sites"]] = tpsi
             init = bool(np.array_equal(fr["psi"], psi0) and not fr["mu"].any() and not fr["supercurrent"].any()
                         and not fr["normal_current"].any())
-            ev.append({"kind": "frame0", "init": init})
+            ev.append(dict({"kind": "frame0", "init": init}, **ep))
             continue
         J = fr["supercurrent"] + fr["normal_current"]
         out, flux = cell_outflow(geo, J)
@@ -488,7 +495,7 @@ def conservation_trace(dev, a, ok, frames, err):
             terms.append({"d": q(inflow - r, FINE * iscale), "inflow": q(inflow / I0 * I0_doc, COARSE * iscale), "req": q(r, COARSE * iscale),
                           "name": name})
             tr["worst_term"] = max(tr["worst_term"], abs(inflow - r) / iscale)
-        ev.append({"kind": "cons", "step": fr["step"], "cells": cells, "terms": terms})
+        ev.append(dict({"kind": "cons", "step": fr["step"], "cells": cells, "terms": terms}, **ep))
         tr["nframes"] += 1
     return tr
 
@@ -697,6 +704,184 @@ def history_run(tdgl, a, tmp):
     return t2
 
 
+# ---------------------------------------------------------------- C01: the terminals of a MESHED Device are edited (no re-mesh)
+#
+# Oracle geometry owned by the harness: a terminal is a vertex list (length units) that the harness wrote down; the edits are
+# applied to the Device through the documented API AND to the vertex lists by the arithmetic below; membership of raw boundary
+# edge midpoints / raw boundary sites is decided by the crossing-number test below.  Nothing is read back from the Device's
+# terminals, Polygon.contains_points or Device.terminal_info().
+
+AMBIGUOUS = 1e-7      # a raw boundary midpoint / site closer than this to a terminal's border makes the membership undecidable: refuse
+
+
+def rect_vertices(x0, x1, y0, y1):
+    return [[x0, y0], [x1, y0], [x1, y1], [x0, y1]]
+
+
+def poly_contains(verts, pts):
+    """even-odd (crossing number) test of pts (n, 2) against the closed polygon through verts"""
+    v = np.asarray(verts, dtype=float)
+    p = np.asarray(pts, dtype=float).reshape(-1, 2)
+    inside = np.zeros(len(p), dtype=bool)
+    x, y = p[:, 0], p[:, 1]
+    for (xa, ya), (xb, yb) in zip(v, np.roll(v, -1, axis=0)):
+        if ya == yb:
+            continue
+        crosses = (ya > y) != (yb > y)
+        xc = xa + (y - ya) * (xb - xa) / (yb - ya)
+        inside ^= crosses & (x < xc)
+    return inside
+
+
+def poly_border_distance(verts, pts):
+    v = np.asarray(verts, dtype=float)
+    p = np.asarray(pts, dtype=float).reshape(-1, 2)
+    best = np.full(len(p), np.inf)
+    for a, b in zip(v, np.roll(v, -1, axis=0)):
+        ab = b - a
+        t = np.clip(((p - a) @ ab) / float(ab @ ab), 0.0, 1.0)
+        best = np.minimum(best, np.linalg.norm(p - (a + t[:, None] * ab), axis=1))
+    return best
+
+
+def terminal_geometry_raw(polys, geo, sites, xi_requested=1.0):
+    """As terminal_geometry, but from the vertex lists the harness specified (polys: name -> vertices in length units)."""
+    xi = float(xi_requested)
+    bidx = np.nonzero(geo["boundary"])[0]
+    centres = xi * geo["midpoints"][bidx]
+    bsites = np.unique(geo["edges"][bidx].reshape(-1))
+    pts = xi * np.asarray(sites, dtype=float)[bsites]
+    out = {}
+    for name, verts in polys.items():
+        if min(float(poly_border_distance(verts, centres).min()), float(poly_border_distance(verts, pts).min())) < AMBIGUOUS:
+            raise RuntimeError(f"terminal_geometry_raw: a boundary edge midpoint or boundary site lies on the border of terminal '{name}' "
+                               f"{verts}: membership undecidable, choose other numbers for this family")
+        out[name] = {"bedges": bidx[poly_contains(verts, centres)], "sites": bsites[poly_contains(verts, pts)]}
+    return out
+
+
+def _membership(polys, geo, sites):
+    """boundary edge -> terminal name ('' = none), boundary site -> sorted names: compared before / after an edit"""
+    tg = terminal_geometry_raw(polys, geo, sites)
+    e, s = {}, {}
+    for name, t in tg.items():
+        for k in t["bedges"]:
+            e[int(k)] = e.get(int(k), "") + "|" + name
+        for k in t["sites"]:
+            s[int(k)] = s.get(int(k), "") + "|" + name
+    return e, s, {name: int(len(t["bedges"])) for name, t in tg.items()}
+
+
+def _apply_edit(tdgl, dev, polys, op):
+    """One edit of the terminals of `dev` through the documented API; the same edit on the harness's vertex lists by plain
+    arithmetic.  -> new polys (a new dict)."""
+    how = op["how"]
+    polys = {n: [list(map(float, p)) for p in v] for n, v in polys.items()}
+    term = {t.name: t for t in dev.terminals}
+    if how == "translate":          # Polygon.translate(dx, dy, inplace=True)
+        term[op["terminal"]].translate(dx=op.get("dx", 0.0), dy=op.get("dy", 0.0), inplace=True)
+        polys[op["terminal"]] = [[x + op.get("dx", 0.0), y + op.get("dy", 0.0)] for x, y in polys[op["terminal"]]]
+    elif how == "scale":            # Polygon.scale(xfact, yfact, origin, inplace=True)
+        ox, oy = op["origin"]
+        term[op["terminal"]].scale(xfact=op.get("xfact", 1.0), yfact=op.get("yfact", 1.0), origin=(ox, oy), inplace=True)
+        polys[op["terminal"]] = [[ox + op.get("xfact", 1.0) * (x - ox), oy + op.get("yfact", 1.0) * (y - oy)] for x, y in polys[op["terminal"]]]
+    elif how == "rotate":           # Polygon.rotate(degrees, origin, inplace=True)
+        ox, oy = op["origin"]
+        term[op["terminal"]].rotate(op["degrees"], origin=(ox, oy), inplace=True)
+        c, s_ = math.cos(math.radians(op["degrees"])), math.sin(math.radians(op["degrees"]))
+        polys[op["terminal"]] = [[ox + c * (x - ox) - s_ * (y - oy), oy + s_ * (x - ox) + c * (y - oy)] for x, y in polys[op["terminal"]]]
+    elif how == "points":           # polygon.points = ...
+        term[op["terminal"]].points = np.array(op["vertices"], dtype=float)
+        polys[op["terminal"]] = [list(map(float, p)) for p in op["vertices"]]
+    elif how == "replace":          # device.terminals = (new Polygon objects)
+        dev.terminals = tuple(tdgl.Polygon(n, points=np.array(v, dtype=float)) for n, v in op["terminals"].items())
+        polys = {n: [list(map(float, p)) for p in v] for n, v in op["terminals"].items()}
+    elif how == "swap-names":       # the two Polygon objects exchange their names
+        a_, b_ = op["terminals"]
+        term[a_].set_name(b_)
+        term[b_].set_name(a_)
+        polys[a_], polys[b_] = polys[b_], polys[a_]
+    else:
+        raise ValueError(how)
+    return polys
+
+
+def edit_device(tdgl, a, polys):
+    """A NEW Device (film box 5 x 3, optionally with a hole) whose terminals are the harness's vertex lists `polys`."""
+    from tdgl.geometry import box, circle
+
+    layer = tdgl.Layer(coherence_length=1.0, london_lambda=2.0, thickness=0.1, gamma=10.0)
+    film = tdgl.Polygon("film", points=box(5.0, 3.0, points=a.get("outline", 48)))
+    holes = [tdgl.Polygon("hole", points=circle(0.5, points=16, center=(0.2, 0.1)))] if a.get("hole") else []
+    terms = [tdgl.Polygon(n, points=np.array(v, dtype=float)) for n, v in polys.items()]
+    return tdgl.Device("edited", layer=layer, film=film, holes=holes, terminals=terms, probe_points=[(-1.5, 0.0), (1.5, 0.0)], length_units="um")
+
+
+def terminal_edit_run(tdgl, a, tmp):
+    """A HISTORY on one meshed Device object, a['script'] = list of
+      {"op": "solve", [currents, current_ramp, ...]}     tdgl.solve on the device as it is now (frames checked, epoch recorded)
+      {"op": "query", "what": "terminal_info" | "solver" | "copy"}   the device is only asked / a solver constructed / copied
+      {"op": "edit", "how": translate | scale | rotate | points | replace | swap-names, ...}   terminals edited, NO re-mesh
+    One trace; the injection of every checked frame is that of the terminals in force at its solve (harness vertex lists)."""
+    from tdgl.solver.solver import TDGLSolver
+
+    polys = {n: [list(map(float, p)) for p in v] for n, v in a["terminals"].items()}
+    dev = edit_device(tdgl, a, polys)
+    dev.make_mesh(max_edge_length=a.get("mel", 0.4), smooth=a.get("smooth", 0))
+    mesh0 = dev.mesh
+    sites0 = np.array(mesh0.sites)
+    geo = raw_geometry(mesh0.sites, mesh0.elements, mesh0.edge_mesh.edges)
+    nedits = sum(1 for op in a["script"] if op["op"] == "edit")
+    tr = {"cfg": {"adaptive": bool(a.get("adaptive", False)), "window": int(a.get("window", 3)), "driven": False,
+                  "screening": bool(a.get("screening", False)), "edits": nedits},
+          "ev": [], "args": a, "error": None, "worst_cell": 0.0, "worst_term": 0.0, "nframes": 0, "edits": [], "covered": [],
+          "frames_per_epoch": {}}
+    epoch = 0
+    for op in a["script"]:
+        if op["op"] == "solve":
+            a_s = dict(a, **{k: v for k, v in op.items() if k != "op"})
+            ok, fr, _, err = run_solver(tdgl, a_s, tmp, dev=dev)
+            t = conservation_trace(dev, a_s, ok, fr, err, polys=polys, epoch=epoch)
+            tr["ev"] += t["ev"]
+            tr["worst_cell"] = max(tr["worst_cell"], t["worst_cell"])
+            tr["worst_term"] = max(tr["worst_term"], t["worst_term"])
+            tr["nframes"] += t["nframes"]
+            tr["frames_per_epoch"][str(epoch)] = tr["frames_per_epoch"].get(str(epoch), 0) + t["nframes"]
+            tr["cfg"]["driven"] = bool(tr["cfg"]["driven"] or t["cfg"]["driven"])
+            tr["error"] = tr["error"] or t["error"]
+            tr.setdefault("package_vs_raw", t.get("package_vs_raw"))
+        elif op["op"] == "query":
+            if op["what"] == "terminal_info":
+                dev.terminal_info()
+            elif op["what"] == "solver":
+                opts, kw = solve_args(tdgl, a, None)
+                TDGLSolver(dev, opts, **kw)
+            elif op["what"] == "copy":
+                dev = dev.copy(with_mesh=True)
+            else:
+                raise ValueError(op["what"])
+            tr["ev"].append({"kind": "query", "what": op["what"]})
+        elif op["op"] == "edit":
+            e0, s0, _ = _membership(polys, geo, sites0)
+            polys = _apply_edit(tdgl, dev, polys, op)
+            e1, s1, cover = _membership(polys, geo, sites0)
+            if min(cover.values()) < 2:
+                raise RuntimeError(f"terminal_edit_run: after {op} a terminal covers fewer than 2 boundary edges ({cover}): choose other numbers")
+            changed = sum(1 for k in set(e0) | set(e1) if e0.get(k) != e1.get(k))
+            moved = sum(1 for k in set(s0) | set(s1) if s0.get(k) != s1.get(k))
+            tr["ev"].append({"kind": "edit", "how": op["how"], "changed": int(changed), "sites": int(moved)})
+            tr["edits"].append({"how": op["how"], "boundary_edges_changed": int(changed), "boundary_sites_changed": int(moved)})
+            tr["covered"].append(cover)
+            epoch += 1
+        else:
+            raise ValueError(op["op"])
+        # the history never re-meshes: the mesh (coordinates and triangles) must still be the one generated at the start
+        if dev.mesh is None or not (np.array_equal(np.asarray(dev.mesh.sites), sites0)
+                                    and np.array_equal(np.asarray(dev.mesh.elements), np.asarray(mesh0.elements))):
+            raise RuntimeError("terminal_edit_run: the mesh changed during a history that never re-meshes")
+    return tr
+
+
 # ---------------------------------------------------------------- acceptance of balanced assignments
 
 
@@ -793,6 +978,9 @@ def validate(ctx, traces, what, describe, known=False):
     accepted, r = tlc_traces(ctx, norm, cfg(True, known), f"RunObs[{what}]")
     if "NonVacuous" in r.violated:
         raise core.MachineryFailure(f"{what}: a driven run produced no checked frame with a requested current (vacuous)")
+    if "EditsReached" in r.violated:
+        raise core.MachineryFailure(f"{what}: a history of terminal edits did not reach its configuration (an edit moved no boundary edge, a frame "
+                                    "was not judged against the terminals in force, or no driven solve followed the last edit)")
     ctx.cov["traces_validated_against_impl"] += len(accepted)
     rejected = [n for n in range(len(norm)) if n not in accepted]
     clauses = {}
